@@ -122,6 +122,21 @@ pub fn judge(input: &[u8], rec: &mut Recorder) {
             })()),
         ));
         // 3. from the decoded address value, when a family is specified (on the wire)
+        if fam == 1 || fam == 2 {
+            // ... handed to the builder as a pair of socket addresses, the idiom of the crate's
+            // own examples
+            let pair: Option<(std::net::SocketAddr, std::net::SocketAddr)> = match h.addresses {
+                v2::Addresses::IPv4(a) => Some(((a.source_address, a.source_port).into(), (a.destination_address, a.destination_port).into())),
+                v2::Addresses::IPv6(a) => Some(((a.source_address, a.source_port).into(), (a.destination_address, a.destination_port).into())),
+                _ => None,
+            };
+            if let Some(p) = pair {
+                outs.push((
+                    "decoded-addresses(with_addresses(socket pair))",
+                    io(Builder::with_addresses(h.version | h.command, h.protocol, p).write_payload(h.tlv_bytes()).and_then(|x| x.build())),
+                ));
+            }
+        }
         if fam != 0 {
             outs.push((
                 "decoded-addresses(with_addresses)",
